@@ -458,9 +458,11 @@ Fixpoint tuples (depth : nat) (rest : shape) : list (list entry) :=
   | 0 => [[]]
   | S d => [] :: flat_map (fun e => map (cons e) (tuples d (skipn (advance e) rest))) (pool (hd 1 rest) rest)
   end.
-Definition family_ok (depth : nat) : bool :=
+Definition family_ok_on (shapes : list shape) (depth : nat) : bool :=
   forallb (fun sh => forallb (fun ents => sel_agree (ref_getitem sh ents) (np_getitem sh ents)) (tuples depth sh))
-          family_shapes.
+          shapes.
+Definition family_ok (depth : nat) : bool := family_ok_on family_shapes depth.
+Definition family_shapes12 : list shape := shapes_of_rank 1 ++ shapes_of_rank 2.
 
 (* ------------------------------------------------------------------------- *)
 (* cases and observations for the correspondence                               *)
